@@ -807,6 +807,18 @@ func (prop) Run(raw json.RawMessage, scratch string) core.Result {
 	res.Coq = enc.wrap(fmt.Sprintf("History %s %s %s %s", enc.b(in.Mod), core.CoqList(pk), coqTree(t0), core.CoqList(coqSteps)))
 
 	res.Nontrivial = nRuns >= 2 && nSkips > 0 && nExec > 0
+	// input classes (names only; none of them is a known finding — they keep the reports of the two repaired
+	// defects apart when the check runs on a tree without the fixes)
+	for _, p := range in.Pkgs {
+		if p.Dir == "." {
+			res.Class = "root_package"
+		}
+	}
+	for _, o := range in.Ops {
+		if o.K == "symlink" {
+			res.Class = "unhashable_dir"
+		}
+	}
 	for t := range tags {
 		res.Tags = append(res.Tags, t)
 	}
